@@ -118,5 +118,8 @@ LexGreater(a, b) == \E k \in 1..Len(a) : a[k] > b[k] /\ \A j \in 1..(k - 1) : a[
 Higher(a, b) == LexGreater(Rank(a), Rank(b))
 
 \* $badfilter: f disables exactly the rules equal to it apart from the badfilter modifier
-Twin(f, r) == f.badfilter /\ ~r.badfilter /\ [f EXCEPT !.badfilter = FALSE] = r
+\* (a pattern that ends in "/*" is read as the same pattern ending in "^" - Mask.tla - so the two spellings are one rule)
+NormPat(p) == IF Len(p) >= 2 /\ p[Len(p) - 1] = 47 /\ p[Len(p)] = 42 THEN SubSeq(p, 1, Len(p) - 2) \o <<94>> ELSE p
+SameRule(a, b) == [a EXCEPT !.pat = NormPat(a.pat)] = [b EXCEPT !.pat = NormPat(b.pat)]
+Twin(f, r) == f.badfilter /\ ~r.badfilter /\ SameRule([f EXCEPT !.badfilter = FALSE], r)
 =============================================================================
